@@ -13,8 +13,29 @@ def known_match(line, case):
     return None
 
 
+def fresh_cli_binary():
+    """The CLI target directory is shared between checkouts (VERIF_REPO): cargo does not re-link release/copia when the
+    package it built last for THIS checkout is still fresh, and the two checkouts
+    share one unit hash, so a binary of another checkout (with newer mtimes) could be left in place. Whenever the
+    checkout changed, drop the copia units so that cargo rebuilds them from the checkout in use."""
+    import os
+    stamp = os.path.join(vlib.CLI_TARGET, ".c20-repo")
+    prev = open(stamp).read() if os.path.exists(stamp) else None
+    if prev != vlib.REPO:
+        import glob, shutil
+        for f in [vlib.COPIA] + glob.glob(os.path.join(vlib.CLI_TARGET, "release", "deps", "copia-*")) \
+                + glob.glob(os.path.join(vlib.CLI_TARGET, "release", "deps", "libcopia-*")):
+            if os.path.exists(f):
+                os.remove(f)
+        for d in glob.glob(os.path.join(vlib.CLI_TARGET, "release", ".fingerprint", "copia-*")):
+            shutil.rmtree(d, ignore_errors=True)
+        os.makedirs(vlib.CLI_TARGET, exist_ok=True)
+        open(stamp, "w").write(vlib.REPO)
+
+
 def run(prop, tier, seed, replay):
     v = vlib.Verdict(prop, tier, seed)
+    fresh_cli_binary()
     st = common.front(v, prop, need_cli=True)
     extra = ["--copia", vlib.COPIA] if st["cli_ok"] else []
     res = common.correspondence(v, st, prop, "c20", "c20", tier, seed, replay, extra=extra,
